@@ -86,6 +86,8 @@ structure Facts where
   vacuumOrder : List String
   /-- `DeleteHistoricVersions`: nodes are deleted before roots -/
   deleteOrder : List String
+  /-- kv/crypto.go: `deriveKey`, `V1NodeEncryptor`, `jencryptor.Encrypt/Decrypt` are the known pure functions -/
+  deriveKeyAsExpected : Bool
   /-- `DeleteHistoricVersions` first removes the historic versions still listed under root/current/ -/
   vacuumFinishesRetire : Bool
   /-- `getHistoricRootsAndNodes`: links reachable from the current tree and from kept versions are removed from the delete set -/
@@ -120,6 +122,8 @@ structure Facts where
   /-- package-level mutable variables of the non-test packages, and whether every access is under its mutex -/
   sharedGlobals : List String
   sharedGlobalsLocked : Bool
+  /-- `New`: the duplicate-name check and the insertion into `tables` are one critical section -/
+  registerAtomic : Bool
 deriving Repr
 
 end S3db
